@@ -1,5 +1,6 @@
 import Ecal.Drivers.Util
 import Ecal.Model.Interp
+import Ecal.Model.Lexer
 /-!
 Driver of C14. Payload (space separated):
   `<source-hex> <E|R> <literal-hex> <code-hex>:<replacement-hex>:<log> …`
@@ -49,8 +50,24 @@ def runShared (kind : String) (k : Nat) (lit : List Nat) (tab : List Entry) : St
       hexEnc (interp (fun c => if c = codeN then strBytes (toString i) else evTab tab c) lit)
     ",".intercalate outs ++ nt
 
+/-- LEX: the source of ONE literal (or what was meant to be one) is run through the lexer model; result =
+    the token kinds and, for string tokens, value and raw / interpolating flag — what the interpolation
+    stage receives. `T <id>` for other tokens, `S <E|R> <value-hex>` for strings. -/
+def lexCase (src : List Nat) : String :=
+  let toks := (Ecal.Lex.lex src).toList
+  let show1 (t : Ecal.Lex.Tok) : String :=
+    if t.id = Ecal.Lex.tSTRING then "S" ++ (if t.allowEscapes then "E" else "R") ++ hexEnc t.val
+    else if t.id = Ecal.Lex.tERROR then "X"
+    else "T" ++ toString t.id
+  let isStr := toks.any fun t => t.id = Ecal.Lex.tSTRING
+  ",".intercalate (toks.map show1) ++ (if isStr then "\tnt=1" else "")
+
 def runCase (payload : String) : String :=
   match payload.splitOn " " with
+  | ["LEX", src] =>
+    match hexDecode src with
+    | some b => lexCase b
+    | none => "bad-payload"
   | "REC" :: k :: _src :: _flag :: lit :: entries =>
     match hexDecode lit, entries.mapM parseEntry with
     | some lit, some tab => runShared "REC" k.toNat! lit tab
